@@ -13,8 +13,10 @@ SEND_Q = "aiomysensors.gateway.Gateway.send"
 
 
 def interference(I, node, fr):
-    """Rely: while the listener is suspended in an await of the flush, other tasks run whole `Gateway.send` calls:
-    buffer entries are added or overwritten, never removed; the write log and the per-message write counters only grow."""
+    """Rely: while the listener is suspended in an await of the flush, other tasks run whole `Gateway.send` calls: entries of
+    the node being released (it stays flagged sleeping for the whole release, so a send for it parks) are added or overwritten,
+    never removed; entries of other nodes may also disappear (a direct write drops the superseded entry of its own key); the
+    write log and the per-message write counters only grow."""
     if fr.func is None or fr.func.qualname != FLUSH_Q:
         return
     c = I.c
@@ -24,7 +26,8 @@ def interference(I, node, fr):
     dom1 = c.fresh("rely_dom", dom0.sort())
     map1 = c.fresh("rely_map", map0.sort())
     q = z3.Const("q_rely", Key3)
-    c.assume(z3.ForAll([q], z3.Implies(z3.Select(dom0, q), z3.Select(dom1, q))))
+    nid = I.to_term(I.read_field(fr.locals["message"], "node_id"), TInt)
+    c.assume(z3.ForAll([q], z3.Implies(z3.And(z3.Select(dom0, q), k3n(q) == nid), z3.Select(dom1, q))))
     I.d_set_dom(sm, dom1)
     I.d_set_map(sm, map1)
     w0 = c.heap.get("ghost.wcnt", arr(Ref, IntS))
@@ -65,22 +68,20 @@ def flush_contract():
         pre_lets={"n": "message.node_id", "SM": "message_buffer.set_messages"},
         returns="message", modifies=["message_buffer.set_messages[...]"] + GHOST_LOG + ["ghost.wcnt"],
         ensures=[H("C09/returns-the-message", "result is message")],
-        raises={"TransportError": [H("C09/failure-propagates", "True")]}, check_wf=False)
+        raises={"TransportError": [H("C09/failure-propagates", "True")]}, check_wf=False)  # (wfail: see handlers_c flush contract)
     ct.quantified_wf = (TDict(TKey3, TObj("Message")),)
     ct.raises_only_id = "C09+C03/raises-only"
     return ct
 
 
-def park_is_atomic(world):
-    """Guarantee side: in the outgoing set handler the test `node.sleeping` and the store into the buffer are in one
-    await-free segment (read from the AST): other tasks cannot run between them."""
-    f = world.functions.get(OUT_SET)
-    ok, detail = False, "handler not found"
-    if f is not None:
-        for st in ast.walk(f.node):
-            if isinstance(st, ast.If) and any(isinstance(x, ast.Attribute) and x.attr == "sleeping" for x in ast.walk(st.test)):
-                has_await = any(isinstance(x, ast.Await) for b in st.body for x in ast.walk(b)) or any(isinstance(x, ast.Await) for x in ast.walk(st.test))
-                stores = any(isinstance(x, ast.Subscript) and isinstance(x.ctx, ast.Store) for b in st.body for x in ast.walk(b))
-                ok, detail = (not has_await and stores), f"park branch at line {st.lineno}: await-free={not has_await}, stores={stores}"
-    return {"name": "C09/park-is-atomic", "tag": "property", "status": "unsat" if ok else "sat", "secs": 0.0, "backend": "structural",
-            "unit": OUT_SET, "path": [detail], "model": None}
+def park_hook(I, outcome, heap0, heap1):
+    """Guarantee side of the rely, read off the path itself: when the outgoing set handler parks a message (a store into
+    the sleep buffer), no suspension point lies between its read of `node.sleeping` and that store - another task cannot
+    run in between, so a message is never parked for a node that has meanwhile been released."""
+    import z3
+    out = []
+    for tn, at, reads in I.stores:
+        if tn == tname(TDict(TKey3, TObj("Message"))):
+            ok = reads.get("Node.sleeping") == at
+            out.append(("C09/park-is-atomic", "property", z3.BoolVal(bool(ok))))
+    return out
